@@ -288,58 +288,77 @@ def rule_read(ctx):
     ctx.floor("C14.READ", "element emitters", n, 10)
 
 
+def _dispatch_eval(ctx, raised):
+    """Attach A, B (plain) and C (coroutine function) for Write and D (plain) for Change on a definition object produced by
+    its real constructor, raise one event of class <raised> through the real raise_event, and report what was invoked:
+    [(handler, 'direct' | 'task', called with the event?)] in order - or a string describing why it is undecided."""
+    p = ctx.p
+    esd = p.cls("indi.device.events.EventSourceDefinition")
+    f = esd.methods["attach_event_handler"]
+    src = p.cls("indi.device.events.EventSource")
+    rz = src.find_method("raise_event")
+    classes = {k: p.cls(f"indi.device.events.{k}") for k in ("Write", "Change", "Read")}
+    from ..absint import Frame
+    defattrs = {n_.value.attr for n_ in ast.walk(rz.node) if isinstance(n_, ast.Attribute) and n_.attr == "event_handlers" and isinstance(n_.value, ast.Attribute) and isinstance(n_.value.value, ast.Name) and n_.value.value.id == "self"}
+    if len(defattrs) != 1:
+        raise Undecided("raise_event does not read self.<definition>.event_handlers")
+    defattr = defattrs.pop()
+
+    def fm(it, callee, args, kwargs):
+        if isinstance(callee, Foreign) and callee.dotted.endswith("iscoroutinefunction"):
+            return Const(isinstance(args[0], Obj) and args[0].label.startswith("<co:"))
+        return None
+
+    def run_att(it: Interp):
+        fr = Frame(None, esd.module, {})
+        d = it.apply(Cls(esd), [], {}, [], None, fr, False)
+        cbs = {n_: Obj(None, {}, label=n_) for n_ in ("<fn:A>", "<fn:B>", "<co:C>", "<fn:D>")}
+        for n_, et in (("<fn:A>", "Write"), ("<fn:B>", "Write"), ("<co:C>", "Write"), ("<fn:D>", "Change")):
+            it.run_function(Fn(f, d), [Cls(classes[et]), cbs[n_]], {})
+        holder = Obj(src, {defattr: d}, label="source")
+        ev = Obj(classes[raised], {}, label="event")
+        it.ev = ev
+        del it.events[:]
+        return it.run_function(Fn(rz, holder), [ev], {})
+
+    paths = explore(p, run_att, {"inline": lambda fi, node: fi.module.name == "indi.device.events", "instantiate": lambda ci: ci is esd, "foreign_model": fm})
+    ctx.paths_enumerated += len(paths)
+    if not (len(paths) == 1 and paths[0].outcome == "return"):
+        return f"{len(paths)} paths / outcome {paths[0].outcome if paths else None}"
+    pa = paths[0]
+    got = []
+    for e in pa.events:
+        if e.kind != "call":
+            continue
+        cal = e.data["callee"]
+        if isinstance(cal, Obj) and cal.label.startswith(("<fn:", "<co:")):
+            as_task = any(is_call(x.data["term"], method="create_task") and x.data["args"] and x.data["args"][0] is e.data["term"] for x in pa.events if x.kind == "call")
+            got.append((cal.label, "task" if as_task else "direct", bool(e.data["args"]) and e.data["args"][0] is pa.interp.ev))
+    return got
+
+
 def rule_dispatch(ctx):
+    """raise_event invokes exactly the handlers attached for the event's class: once each, in attachment order, plain
+    functions directly (before it returns), coroutine functions as tasks; nothing for a class without handlers."""
     p = ctx.p
     _init(p)
-    es = p.cls("indi.device.events.EventSource")
-    f = es.find_method("raise_event")
-    paths = run_method(p, f, opts={"max_for": 2})
-    ctx.paths_enumerated += len(paths)
+    f = p.cls("indi.device.events.EventSource").find_method("raise_event")
+    want = {
+        "Write": [("<fn:A>", "direct", True), ("<fn:B>", "direct", True), ("<co:C>", "task", True)],
+        "Change": [("<fn:D>", "direct", True)],
+        "Read": [],
+    }
     bad = False
-    saw_iter = False
-    for pa in paths:
-        if pa.outcome != "return":
-            ctx.violated("C14.DISPATCH", f.short, "raise_event can raise by itself", fi=f, text="raises")
+    for raised, exp in want.items():
+        got = _dispatch_eval(ctx, raised)
+        if isinstance(got, str):
+            ctx.undecided("C14.DISPATCH", f.short, f"raising a {raised} event is not decided by constant evaluation ({got})", fi=f)
             bad = True
-            continue
-        enters = [e for e in pa.events if e.kind == "loop-enter"]
-        if len(enters) != 1:
-            ctx.undecided("C14.DISPATCH", f.short, "expected exactly one loop over the handlers", fi=f)
+        elif got != exp:
+            ctx.violated("C14.DISPATCH", f.short, f"with A, B (plain), C (coroutine) attached for Write and D for Change, raising a {raised} invokes {got}, expected {exp}: every handler of the event's class exactly once, in order, coroutine functions as tasks, nobody else", fi=f, text=f"dispatch:{raised}", witness=raised)
             bad = True
-            continue
-        it = show(enters[0].data["iterable"])
-        evp = f.params()[1]  # the event parameter, whatever it is called
-        if f"event_handlers.get({evp}.__class__" not in it:
-            ctx.violated("C14.DISPATCH", f.short, f"handlers are not looked up by the event's class: {it[:80]}", fi=f, text="lookup-key")
-            bad = True
-        exits = [e for e in pa.events if e.kind == "loop-exit"]
-        if exits and exits[0].data["how"] != "exhausted":
-            ctx.violated("C14.DISPATCH", f.short, "the handler loop stops early", fi=f, text="early-exit")
-            bad = True
-        n = enters[0].data["n"]
-        for i in range(n):
-            saw_iter = True
-            evs = [e for e in pa.events if any(c[0] == "loop" and c[2] == i for c in e.ctx)]
-            iscor = [e for e in evs if e.kind == "assume" and "iscoroutinefunction" in show(e.data["cond"])]
-            calls = [e for e in evs if e.kind == "call"]
-            direct = [e for e in calls if isinstance(e.data["callee"], Term) and e.data["callee"].op in ("val", "elem", "unpack") and e.data["args"] and show(e.data["args"][0]) == evp]
-            tasks = [e for e in calls if is_call(e.data["term"], method="create_task")]
-            if not iscor:
-                ctx.violated("C14.DISPATCH", f.short, "handlers are not distinguished by asyncio.iscoroutinefunction", fi=f, text="no-coro-test")
-                bad = True
-                continue
-            if iscor[0].data["truth"]:
-                if len(tasks) != 1 or len(direct) != 1 or direct[0].idx > tasks[0].idx or not (tasks[0].data["args"] and tasks[0].data["args"][0] is direct[0].data["term"]):
-                    ctx.violated("C14.DISPATCH", f.short, "a coroutine handler is not scheduled as exactly one task of cb(event)", fi=f, text="coro-branch")
-                    bad = True
-            else:
-                if tasks or len(direct) != 1:
-                    ctx.violated("C14.DISPATCH", f.short, f"a plain handler is called {len(direct)} times / scheduled {len(tasks)} times (expected 1/0)", fi=f, text="plain-branch")
-                    bad = True
-    if not saw_iter:
-        ctx.undecided("C14.DISPATCH", f.short, "no loop iteration explored", fi=f)
-    elif not bad:
-        ctx.holds("C14.DISPATCH", f.short, "handlers of event.__class__: all visited; task for coroutine functions, direct call otherwise", fi=f)
+    if not bad:
+        ctx.holds("C14.DISPATCH", f.short, "handlers of the event's class: all invoked once, in order; task for coroutine functions, direct call otherwise; none for other classes", fi=f)
 
 
 def rule_msg(ctx):
@@ -402,51 +421,10 @@ def rule_attach(ctx):
     calls = [n for n in ast.walk(att.node) if isinstance(n, ast.Call) and isinstance(n.func, ast.Attribute) and n.func.attr == "attach_event_handler"]
     ok = len(calls) == 1 and len(calls[0].args) == 2 and ast.unparse(calls[0].args[0]).endswith("event_type")
     ctx.check(ok, "C14.ATTACH", att.short, "attach_event_handler(event_type, f) per attachment", "attach_event_handlers does not register every attachment under its event type", fi=att, text="attach-loop")
-    # attach + dispatch, evaluated together on a definition object produced by its real constructor: handlers attached
-    # for an event type are exactly the ones raise_event invokes for an event of that type, once each, in attachment order
+    got = _dispatch_eval(ctx, "Write")
     esd = p.cls("indi.device.events.EventSourceDefinition")
     f = esd.methods["attach_event_handler"]
-    src = p.cls("indi.device.events.EventSource")
-    rz = src.find_method("raise_event")
-    wcls, ccls = p.cls("indi.device.events.Write"), p.cls("indi.device.events.Change")
-    from ..absint import Frame
-    # the attribute through which an event source reaches its definition (whatever it is called)
-    defattrs = {n_.value.attr for n_ in ast.walk(rz.node) if isinstance(n_, ast.Attribute) and n_.attr == "event_handlers" and isinstance(n_.value, ast.Attribute) and isinstance(n_.value.value, ast.Name) and n_.value.value.id == "self"}
-    if len(defattrs) != 1:
-        raise Undecided("raise_event does not read self.<definition>.event_handlers")
-    defattr = defattrs.pop()
-
-    def fm(it, callee, args, kwargs):
-        if isinstance(callee, Foreign) and callee.dotted.endswith("iscoroutinefunction"):
-            return Const(isinstance(args[0], Obj) and args[0].label.startswith("<co:"))
-        return None
-
-    def run_att(it: Interp):
-        fr = Frame(None, esd.module, {})
-        d = it.apply(Cls(esd), [], {}, [], None, fr, False)
-        cbs = {n_: Obj(None, {}, label=n_) for n_ in ("<fn:A>", "<fn:B>", "<co:C>", "<fn:D>")}
-        for n_, et in (("<fn:A>", wcls), ("<fn:B>", wcls), ("<co:C>", wcls), ("<fn:D>", ccls)):
-            it.run_function(Fn(f, d), [Cls(et), cbs[n_]], {})
-        holder = Obj(src, {defattr: d}, label="source")
-        ev = Obj(wcls, {}, label="event")
-        it.ev = ev
-        del it.events[:]
-        return it.run_function(Fn(rz, holder), [ev], {})
-
-    paths = explore(p, run_att, {"inline": lambda fi, node: fi.module.name == "indi.device.events", "instantiate": lambda ci: ci is esd, "foreign_model": fm})
-    ctx.paths_enumerated += len(paths)
-    ok = len(paths) == 1 and paths[0].outcome == "return"
-    got = None
-    if ok:
-        pa = paths[0]
-        got = []
-        for e in pa.events:
-            if e.kind != "call":
-                continue
-            cal = e.data["callee"]
-            if isinstance(cal, Obj) and cal.label.startswith(("<fn:", "<co:")):
-                got.append((cal.label, "direct" if not any(is_call(x.data["term"], method="create_task") and x.data["args"] and x.data["args"][0] is e.data["term"] for x in pa.events if x.kind == "call") else "task", bool(e.data["args"]) and e.data["args"][0] is pa.interp.ev))
-        ok = got == [("<fn:A>", "direct", True), ("<fn:B>", "direct", True), ("<co:C>", "task", True)]
+    ok = got == [("<fn:A>", "direct", True), ("<fn:B>", "direct", True), ("<co:C>", "task", True)]
     ctx.check(ok, "C14.ATTACH", f.short, "handlers attached for an event type are invoked for events of that type: once each, in order, coroutine functions as tasks", f"after attaching A, B (plain), C (coroutine) for Write and D for Change, raising a Write invokes {got}: expected A and B directly and C as a task, each once with the event, and not D", fi=f, text="attach-store")
 
 
